@@ -318,6 +318,73 @@ fn big_shapes() -> Vec<Case> {
     out
 }
 
+/// the graphs of the C20 evaluation sequences: two small ones of equal encoded length, two chains of 16 384 nodes of
+/// equal encoded length (different last operator), one with three named inputs
+fn seq_graphs() -> Vec<Case> {
+    let mut v = vec![];
+    // (operator codes 2 = Add and 3 = Sub: a zero code would be omitted by the encoding and change the length)
+    for op in [2u32, 3] {
+        v.push(Case { layout: "seq-small".into(), nodes: vec![GNode::Input(1), GNode::Input(2), GNode::Const(big(3)), GNode::Duo(op, 0, 1), GNode::Duo(0, 3, 2)], signals: vec![4, 3, 0], inputs: vec![("a".into(), 1, 1), ("b".into(), 2, 1)], assign: vec![vec![big(5)], vec![big(7)]] });
+    }
+    let big_ones: Vec<Case> = big_shapes().into_iter().filter(|c| c.layout == "chain-16384").collect();
+    // same constant and assignment, last operators Add (2) and Sub (3)
+    let pick = |last: u32| big_ones.iter().find(|c| matches!(c.nodes.last(), Some(GNode::Duo(o, _, _)) if *o == last) && c.assign[0][0] == big(1) && matches!(&c.nodes[2], GNode::Const(k) if *k == big(0))).cloned();
+    v.extend(pick(2));
+    v.extend(pick(3));
+    v.extend(big_shapes().into_iter().filter(|c| c.layout == "three-inputs-offset-3"));
+    v
+}
+
+impl C20 {
+    /// A sequence of witness computations on ONE fresh thread from ONE reused byte buffer: code k < n evaluates graph k
+    /// of `seq_graphs` (its reference encoding is copied into the buffer first), code n hands over a truncated copy of
+    /// graph 0 (must be refused). Every accepted computation must return the reference values of ITS graph.
+    fn seq(&self, codes: &[u8]) -> Vec<Discrepancy> {
+        let case = json!({"kind": "seq", "calls": codes});
+        let codes: Vec<u8> = codes.to_vec();
+        let h = std::thread::spawn(move || -> Vec<(usize, &'static str, String)> {
+            let gs = seq_graphs();
+            let encs: Vec<Vec<u8>> = gs.iter().map(|c| wtns::encode_graph(&c.nodes, &c.signals, &c.inputs)).collect();
+            let mut buf: Vec<u8> = Vec::with_capacity(encs.iter().map(|e| e.len()).max().unwrap_or(0) + 16);
+            let mut bad = vec![];
+            for (k, code) in codes.iter().enumerate() {
+                let gi = *code as usize;
+                buf.clear();
+                if gi >= gs.len() {
+                    buf.extend_from_slice(&encs[0][..encs[0].len() / 2]);
+                    match guard(|| rln::circuit::iden3calc::try_calc_witness(vec![("a".to_string(), vec![to_fr(&big(5))]), ("b".to_string(), vec![to_fr(&big(7))])], &buf)) {
+                        Err(pn) => bad.push((k, "panic", pn)),
+                        Ok(Ok(_)) => bad.push((k, "malformed-accepted", "half of a graph container was evaluated".into())),
+                        Ok(Err(_)) => {}
+                    }
+                    continue;
+                }
+                let c = &gs[gi];
+                buf.extend_from_slice(&encs[gi]);
+                let want_all = ref_values(&c.nodes, &c.buffer());
+                let want: Vec<BigUint> = c.signals.iter().map(|s| want_all[*s as usize].clone()).collect();
+                let named: Vec<(String, Vec<Fr>)> = c.inputs.iter().zip(c.assign.iter()).map(|((n, _, _), v)| (n.clone(), v.iter().map(to_fr).collect())).collect();
+                match guard(|| rln::circuit::iden3calc::try_calc_witness(named, &buf)) {
+                    Err(pn) => bad.push((k, "panic", pn)),
+                    Ok(Err(e)) => bad.push((k, "refused", e)),
+                    Ok(Ok(got)) => {
+                        let g: Vec<BigUint> = got.iter().map(from_fr).collect();
+                        if g != want {
+                            let i = g.iter().zip(want.iter()).position(|(a, b)| a != b).unwrap_or(0);
+                            bad.push((k, "wrong-value", format!("graph {gi} ({}): signal {i}: expected {} got {} ({} values, {} expected)", c.layout, want.get(i).cloned().unwrap_or_default(), g.get(i).cloned().unwrap_or_default(), g.len(), want.len())));
+                        }
+                    }
+                }
+            }
+            bad
+        });
+        match h.join().unwrap_or_default().first() {
+            Some((k, sym, d)) => vec![Discrepancy { key: format!("C20/calc_witness/after-other-graphs/{sym}"), case, detail: format!("computation number {k} of the sequence: {d}") }],
+            None => vec![],
+        }
+    }
+}
+
 impl Prop for C20 {
     fn id(&self) -> &'static str {
         "C20"
@@ -326,6 +393,9 @@ impl Prop for C20 {
         "exploration"
     }
     fn run_case(&self, case: &Value) -> Vec<Discrepancy> {
+        if case["kind"] == "seq" {
+            return self.seq(&case["calls"].as_array().cloned().unwrap_or_default().iter().map(|x| x.as_u64().unwrap_or(0) as u8).collect::<Vec<u8>>());
+        }
         let mut out = vec![];
         if let Some(c) = Case::from_json(case) {
             let bytes = self.storage(&c, &mut out);
@@ -435,10 +505,34 @@ impl Prop for C20 {
         graphs += shapes.len() as u64;
         evals += shapes.len() as u64;
         ev.set("large_shape_graphs", json!(shapes.len()));
+        // sequences of computations over different graphs from one reused buffer on a fresh thread
+        let ng = seq_graphs().len() as u8;
+        let mut seqs: Vec<Vec<u8>> = vec![];
+        {
+            let mut cur: Vec<Vec<u8>> = vec![vec![]];
+            for _ in 0..(if q { 3 } else { 4 }) {
+                let mut next = vec![];
+                for h in &cur {
+                    for c in 0..=ng {
+                        let mut n = h.clone();
+                        n.push(c);
+                        next.push(n);
+                    }
+                }
+                seqs.extend(next.iter().cloned());
+                cur = next;
+            }
+        }
+        let qres = par_map(&seqs, ncpu(), |_, sq| self.seq(sq));
+        for o in qres {
+            findings.report_all(o);
+        }
+        evals += seqs.len() as u64;
+        ev.set("graph_sequences_on_one_thread", json!(seqs.len()));
         ev.set("evaluations", json!(evals));
         ev.set("programs", json!(graphs));
         ev.set("distinct_nontrivial", json!(graphs));
-        ev.set("rule", json!("program enumeration: base nodes (two inputs and one constant, five declared-input layouts incl. interleaved, vector, swapped with a gap, constant-one signal) followed by every possible 1st operation node (Neg, 19 binary operators x all operand references, TernCond x all references), every possible 2nd node, and (thorough) every 3rd node over a reduced operator set; each graph is (a) written by zerokit and read back, (b) written by an independent encoder and read by zerokit, (c) compared byte for byte with the independent encoding, (d) evaluated by graph::evaluate and by calc_witness (named inputs in both orders) on every assignment of the inputs over {0,1,2,p-1}^2 and compared with a direct reference interpretation; additionally larger graphs of fixed shapes: chains of N nodes (N around 127/128, 255/256, 16384) whose last node refers back to node 0, constants of every encoded length class, three named inputs with a vector at offsets 3/130/300 and a 150-character name, 40-element output lists; distinct_nontrivial = distinct graphs (each has at least one operation node)"));
+        ev.set("rule", json!("program enumeration: base nodes (two inputs and one constant, five declared-input layouts incl. interleaved, vector, swapped with a gap, constant-one signal) followed by every possible 1st operation node (Neg, 19 binary operators x all operand references, TernCond x all references), every possible 2nd node, and (thorough) every 3rd node over a reduced operator set; each graph is (a) written by zerokit and read back, (b) written by an independent encoder and read by zerokit, (c) compared byte for byte with the independent encoding, (d) evaluated by graph::evaluate and by calc_witness (named inputs in both orders) on every assignment of the inputs over {0,1,2,p-1}^2 and compared with a direct reference interpretation; additionally larger graphs of fixed shapes: chains of N nodes (N around 127/128, 255/256, 16384) whose last node refers back to node 0, constants of every encoded length class, three named inputs with a vector at offsets 3/130/300 and a 150-character name, 40-element output lists; every sequence of up to 3 (thorough 4) computations over {two small graphs of equal encoded length, two 16 384-node chains of equal encoded length, a three-input graph, half a container (refused)} read from one reused buffer on a fresh thread, each compared with the reference values of its own graph; distinct_nontrivial = distinct graphs (each has at least one operation node)"));
         ev.set("exhaustive", json!(true));
         ev.set("node_budget", json!(if q { "3 base + <= 2 operation nodes" } else { "3 base + <= 3 operation nodes (3rd over a reduced operator set, 2 layouts)" }));
         ev.assume("operator semantics are those of the C19 reference; Pow and Id are outside the Montgomery evaluator's documented domain");
